@@ -23,6 +23,9 @@ CHECKS["C04"] = ("exploration", "E1", "bounded exhaustive enumeration of mark pl
 CHECKS["C05"] = ("model_checking", "E2", "explicit-state breadth-first search over refinement-builder call histories with an analytic interval/prefix/length model in lock-step; exhaustive prefix x continuation enumeration",
   "BFS over all builder call sequences to depth 4 (thorough 5) on 28 base values with an analytic model of the stated constraints: contradictions must be rejected, DynamicVal ignores refinement, type and marks are preserved, and after every accepted call the reported range (nullness, bounds with inclusiveness, prefix, length) and the membership of every probe value equal what the model implies (so refinement never widens and never over-narrows, and a collapse to a known value admits exactly what the refinement admitted). All (prefix, continuation) pairs over a 16-symbol hazard alphabet: the safe prefix is an NFC byte prefix of NFC(prefix+continuation).",
   "trusted: the analytic model (reals with infinities, byte prefixes, naturals); probes are finite; StringPrefix modelled through SafeKnownPrefix which part (b) decides", "§3 C05")
+CHECKS["C06"] = ("exploration", "E1", "bounded exhaustive enumeration of producing calls (union driver over the other checks' universes) with a deep well-formedness walk as the only oracle",
+  "Every value returned by every constructor call on generated arguments and by the operation, refinement, conversion, function, decoder and traversal calls of the other checks' quick universes is walked with every applicable public accessor: payloads match declared types, tuple/object shapes match, strings/names/keys are NFC, sets hold no marked or duplicate member, at most one mark layer, no optional-attribute annotation survives.",
+  "trusted: the accessor walk; coverage is the union of the quick universes of C01, C05, C08, C11, C15-C17, C19", "§3 C06")
 NOT_YET = {}
 props = [json.loads(l) for l in open('/verif/properties.jsonl')]
 checks = []
